@@ -53,7 +53,7 @@ def placement_errors(schema):
     return out
 
 
-TEMPLATES = ["{{ semver }}|{{ pep440 }}", "v{{ major }}.{{ minor }}-{{ bumped_branch }}", "{{ semver_obj.docker }}/{{ distance }}/{{ dirty }}",
+TEMPLATES = ["{{ semver }}|{{ pep440 }}", "{{ semver_obj.build_part }}/{{ pep440_obj.build_part }}/{{ semver_obj.pre_release_part }}", "{{ pep440 }}", "v{{ major }}.{{ minor }}-{{ bumped_branch }}", "{{ semver_obj.docker }}/{{ distance }}/{{ dirty }}",
              "{{ sanitize(value=bumped_branch, preset='pep440') }}+{{ bumped_commit_hash_short }}", "[{{ custom.build_id }}][{{ pre_release.label }}]"]
 
 
@@ -89,6 +89,16 @@ def gen_emit_case(rng):
             text = ron.zerv_to_ron(schema, v)
             return ["version", "--source", "stdin", "--output-format", "zerv"], text
         return ["version", "--source", "stdin", "--output-format", "zerv"], ron.zerv_to_ron(schema, v)
+    if k < 0.82:
+        # only literal schema components change (no variable does): renderings must follow the emitted object
+        f = c07.gen_fields(rng, 2 ** 31)
+        f["build"] = None
+        schema = '(core: [var(Major), var(Minor), var(Patch)], extra_core: [var(Epoch), var(PreRelease), str("stage"), uint(1)], build: [str("old"), uint(7), var(BumpedBranch)])'
+        argv = ["version", "--source", "none", "--tag-version", c07.canon_semver(f), "--schema-ron", schema, "--output-format", "zerv"]
+        argv += rng.choice([["--build=0=new"], ["--build=0=new", "--build=1=9"], ["--extra-core=2=prod"], ["--bump-build=1=5"], ["--bump-extra-core=3"], ["--build=~3=x1", "--extra-core=-1=4"]])
+        if rng.random() < 0.5:
+            argv += ["--bumped-branch=main"]
+        return argv, None
     f = c07.gen_fields(rng, 2 ** 31)
     f["build"] = None
     argv = ["flow", "--source", "none", "--tag-version", c07.canon_semver(f), "--output-format", "zerv"]
@@ -340,6 +350,28 @@ def work_refusal(bins, seed, n):
             if order is not None:
                 continue          # a mutated precedence order is a different (valid) object the writer does not reproduce
             bad.append(("mutant-renders-differently", "mutant printed %r but the object it denotes prints %r (exit %s)" % (r["out"].strip(), r2["out"].strip(), r2["exit"]), case))
+    # byte-level mutants: a document that is not valid UTF-8 is not valid RON text
+    for _ in range(max(10, n // 6)):
+        schema = objgen.rand_schema(rng, ascii_only=False)
+        v = objgen.rand_vars(rng, ascii_only=False)
+        v["dirty"] = False if v.get("dirty") else v.get("dirty")
+        good = ron.zerv_to_ron(schema, v).encode("utf-8")
+        i = rng.randrange(len(good))
+        while i < len(good) and (good[i] & 0xC0) == 0x80:
+            i += 1            # do not split an existing multi-byte character: insert between characters
+        bad_bytes = rng.choice([b"\xff", b"\xfe\xff", b"\xc3", b"\xe6\x97", b"\xed\xa0\x80", b"\xf8\x88\x80\x80\x80", b"\x80", b"\xc0\xaf"])
+        m = good[:i] + bad_bytes + good[i:]
+        r = core.run_zerv(bins, ["version", "--source", "stdin", "--output-format", rng.choice(["semver", "pep440", "zerv"])], stdin=m, env=env)
+        st["invalid_utf8_mutants"] = st.get("invalid_utf8_mutants", 0) + 1
+        case = dict(kind="bytes", stdin=m.decode("latin-1"))
+        if r["timeout"]:
+            continue
+        if "panicked" in r["err"]:
+            bad.append(("panic-in-binary", r["err"][:200], case))
+        elif r["exit"] == 0:
+            bad.append(("invalid-utf8-rendered", "a document containing the invalid UTF-8 bytes %r at offset %d was rendered as %r" % (bad_bytes, i, r["out"][:80]), case))
+        elif r["out"]:
+            bad.append(("stdout-on-failure", "rejected but printed %r" % r["out"][:100], case))
     return dict(bad=bad, st=st)
 
 
@@ -373,10 +405,11 @@ def run(ctx):
 def replay(ctx, doc):
     c = doc["case"]
     env = core.base_env(ctx.bins)
-    if c["kind"] in ("structural", "textual"):
-        r = core.run_zerv(ctx.bins, ["version", "--source", "stdin", "--output-format", "semver"], stdin=c["stdin"], env=env)
+    if c["kind"] in ("structural", "textual", "bytes"):
+        sin = c["stdin"].encode("latin-1") if c["kind"] == "bytes" else c["stdin"]
+        r = core.run_zerv(ctx.bins, ["version", "--source", "stdin", "--output-format", "semver"], stdin=sin, env=env)
         print("exit=%s out=%r err=%r" % (r["exit"], r["out"], r["err"][:300]))
-        return 1 if r["exit"] == 0 and c["kind"] == "structural" else 0
+        return 1 if r["exit"] == 0 and c["kind"] in ("structural", "bytes") else 0
     r = core.run_zerv(ctx.bins, c["argv"], stdin=c.get("stdin"), env=env)
     print("exit=%s\n%s\n%s" % (r["exit"], r["out"][:2000], r["err"][:300]))
     print(doc.get("what"))
